@@ -163,6 +163,36 @@ def exampleW : List WEntry :=
 example : (List.range 14).map (specWidth exampleW none) =
     [5, 501 / 2, 600, 1000, 1000, 1000, 1000, 1000, 1000, 1000, 700, 700, 700, 1000] := by decide +kernel
 
+/-! ## Vertical metrics: W2 / DW2 -/
+
+/-- For any interleaving of the two `W2` syntaxes (`c [w1y vx vy …]` and `c1 c2 w1y vx vy`), `get_widths2`
+succeeds and builds exactly the specified dictionary. -/
+theorem widths2_map_spec (es : List W2Entry) :
+    getWidths2 (renderW2 es) = .ok (toW2Map (specWidth2Pairs es).reverse) := by
+  unfold getWidths2
+  rw [widths2_fold es []]
+  simp
+
+/-- The vertical advance `w1y` used for a cid is the latest `W2` entry covering it, else `DW2[1]`, else
+−1000 (default regenerated from pdffont.py). -/
+theorem widths2_spec (es : List W2Entry) (dw2 : Option (Rat × Rat)) (cid : Nat) :
+    (getWidths2 (renderW2 es)).toOption.map (fun m => glyphWidthV m dw2 cid) = some (specWidthV es dw2 cid) := by
+  rw [widths2_map_spec]
+  simp only [Except.toOption, Option.map_some, Option.some.injEq]
+  unfold glyphWidthV specWidthV
+  rw [lookup_toW2Map]
+  cases (specWidth2Pairs es).reverse.lookup (cid : Int) with
+  | none => simp [Gen.CIDFont.DW2_DEFAULT]
+  | some w => simp
+
+/-- non-vacuity: `[1 [-500 250 800 -600 300 810] 10 12 -700 500 880]`. -/
+def exampleW2 : List W2Entry :=
+  [.list 1 [((-500, true), (250, true), (800, true)), ((-600, true), (300, true), (810, true))],
+   .range 10 12 ((-700, true), (500, true), (880, true))]
+
+example : (List.range 13).map (specWidthV exampleW2 (some (880, -900))) =
+    [-900, -500, -600, -900, -900, -900, -900, -900, -900, -900, -700, -700, -700] := by decide +kernel
+
 /-! ## Advances (pen movement) -/
 
 /-- Vertical writing: after showing the cids `cs` at pen `(x, y)` the pen is at
